@@ -50,18 +50,18 @@ def run(cx):
         # length 5 and 6 sampled (seeded)
         import random
         rnd = random.Random(cx.seed)
-        kinds = ["normal", "error", "panic", "deeppanic", "overflow", "opoverflow", "cancelled", "impok", "imperr", "impcancel"]
+        kinds = ["normal", "error", "panic", "deeppanic", "overflow", "opoverflow", "cancelled", "impok", "imperr", "impcancel", "impmod"]
         for _ in range(8000):
             n = rnd.choice([4, 5, 6])
             inv, used = [], set()
             for i in range(1, n + 1):
                 kind = rnd.choice(kinds)
-                ctxk = rnd.choice(["cancel", "background"]) if kind in ("normal", "error", "impok", "imperr") else "cancel"
+                ctxk = rnd.choice(["cancel", "background"]) if kind in ("normal", "error", "impok", "imperr", "impmod") else "cancel"
                 late = [c for c in range(1, i) if c not in used and inv[c - 1]["ctx"] == "cancel" and rnd.random() < 0.3]
                 used.update(late)
                 inv.append({"api": rnd.choice(["RunCode", "Call"]), "kind": kind, "ctx": ctxk, "late": late})
             exp = [{"normal": "value", "error": "index error", "panic": "panic", "deeppanic": "panic", "overflow": "anyerror", "opoverflow": "anyerror", "cancelled": "ctxerr",
-                    "impok": "value", "imperr": "anyerror", "impcancel": "ctxerr"}[v["kind"]] for v in inv]
+                    "impok": "value", "imperr": "anyerror", "impcancel": "ctxerr", "impmod": "value"}[v["kind"]] for v in inv]
             hists.append({"inv": inv, "exp": exp})
     rows = [{"id": i, "inv": h["inv"], "exp": h["exp"]} for i, h in enumerate(hists)]
     hin = cx.path("hist.ndjson")
